@@ -19,7 +19,7 @@ def dep_fields(d):
             "meta": d.meta, "all_files": d.all_files, "head": head}
 
 
-def make_dep(H, rnd, hostile=True, name=None):
+def make_dep(H, rnd, hostile=True, name=None, hostile_head=True):
     f = (lambda: rnd.choice(HOSTILE_FIELDS)) if hostile else (lambda: rnd.choice(["a", "b.js", "x y"]))
     kw = {}
     r = rnd.random()
@@ -33,9 +33,13 @@ def make_dep(H, rnd, hostile=True, name=None):
         kw["stylesheet"] = {"href": f(), "media": f()}
     if rnd.random() < 0.5:
         kw["meta"] = [{"name": f(), "content": f()}]
-    if rnd.random() < 0.6:
+    if rnd.random() < 0.6 and not (hostile and not hostile_head):
         kw["head"] = rnd.choice([f(), H.tags.title(f()), H.TagList(H.tags.meta(name=f(), content=f()), H.tags.div(H.tags.div("x"), H.tags.p(f()))),
                                  H.HTML("<script>var a = '" + f() + "';</script>")])
+    elif rnd.random() < 0.6:
+        # hostile strings only where the library escapes them: head markup itself stays well-formed, so that
+        # "the same markup" can be compared through the tokenizer
+        kw["head"] = rnd.choice([H.tags.title(f()), H.TagList(H.tags.meta(name=f(), content=f()), H.tags.div(H.tags.div("x"), H.tags.p(f())))])
     kw["all_files"] = rnd.random() < 0.3
     return H.HTMLDependency(name if name is not None else "n" + f(), rnd.choice(["1.0", "0.0.1", "2.10.3"]), **kw)
 
@@ -159,7 +163,7 @@ class C13(Prop):
                 pass
             return {"k": "ser", "text": cps(text), "equal": equal, "headSame": head_same, "gen": g}
         if g["kind"] == "doc":
-            deps = {i: make_dep(H, rnd, hostile=(i == 3), name=f"dep{i}") for i in (1, 2, 3)}
+            deps = {i: make_dep(H, rnd, hostile=(i == 3), name=f"dep{i}", hostile_head=False) for i in (1, 2, 3)}
             deco = ["<p>", " </p>\n", "<!-- c -->", " <script>var x = 1;</script> ", "\r\n", "</div>", "&amp;"]
             parts = []
             for s in g["segs"]:
@@ -197,7 +201,7 @@ class C13(Prop):
                     "headEmpty": False, "untouched": rest_text == rest_expected,
                     "insEv": tokenize(ins), "docEv": tokenize(headstr), "gen": g}
         if g["kind"] == "mode":
-            deps = [make_dep(H, rnd, hostile=rnd.random() < 0.5, name=f"m{i}") for i in range(rnd.randint(0, 3))]
+            deps = [make_dep(H, rnd, hostile=rnd.random() < 0.5, name=f"m{i}", hostile_head=False) for i in range(rnd.randint(0, 3))]
             x = H.tags.div("a", H.tags.span(*deps[:1]), *deps[1:], deps[0] if deps else None)
             old = H.html_dependency_render_mode
             try:
